@@ -18,6 +18,7 @@
 from __future__ import annotations
 
 import ast
+import os
 
 import z3
 
@@ -750,6 +751,8 @@ def written_summary(interp, s, frame, st, lo, hi, item_fn, heap_at, env_at=None,
                 raise EngineError(f"written summary of the loop at {where} does not describe heap cell #{sid} which the body modifies")
         assum = st3.all_assumptions()
         for cname, g in goals_between(fr3.env, st3.heap, env_n, heap_n, list(env_at)):
+            if os.environ.get("PYVC_DEBUG_LOOPS"):
+                print("LOOP-DEBUG written-summary step goal at", where, cname or "", "\n   ", z3.simplify(g))
             sg = _SideGoal(f"{label}-step", g, assum, where)
             if cname:
                 sg.clause = cname
